@@ -13,19 +13,19 @@ type FATProblem struct {
 
 // FATReport is the result of checking one volume.
 type FATReport struct {
-	Type          int // 12, 16, 32
-	BytesPerSec   int64
-	ClusterBytes  int64
-	Clusters      int64 // number of data clusters (valid indices 2..Clusters+1)
-	DataStart     int64 // byte offset of cluster 2 relative to the volume start
-	FATStart      int64
-	FATBytes      int64
-	RootDirOff    int64
-	RootDirBytes  int64
-	UsedClusters  int64
-	Files, Dirs   int
-	Problems      []FATProblem
-	MetaExtents   [][2]int64 // absolute extents of metadata (boot area, FATs, directories) for fault placement
+	Type         int // 12, 16, 32
+	BytesPerSec  int64
+	ClusterBytes int64
+	Clusters     int64 // number of data clusters (valid indices 2..Clusters+1)
+	DataStart    int64 // byte offset of cluster 2 relative to the volume start
+	FATStart     int64
+	FATBytes     int64
+	RootDirOff   int64
+	RootDirBytes int64
+	UsedClusters int64
+	Files, Dirs  int
+	Problems     []FATProblem
+	MetaExtents  [][2]int64 // absolute extents of metadata (boot area, FATs, directories) for fault placement
 }
 
 func (r *FATReport) add(class, f string, a ...any) {
